@@ -25,6 +25,8 @@ type Gen struct {
 	InLoop   int
 	// Funcs are custom functions known to be registered: recv type -> names
 	Funcs map[string][]string
+	// NoBig suppresses the occasional > 4 KiB text chunk (C18 truncates files at every prefix)
+	NoBig bool
 }
 
 type gvar struct {
@@ -357,6 +359,10 @@ func (g *Gen) Sentinel() string {
 }
 
 func (g *Gen) Text() string {
+	if !g.NoBig && g.R.Chance(3) {
+		// a chunk larger than common buffer sizes (4 KiB)
+		return "<pre>" + strings.Repeat("%[1]s big chunk padding. ", 200) + "</pre>"
+	}
 	return Pick(g.R, []string{"<p>%s</p>", "%s ", "\n<div class=\"c\">%s</div>\n", "<b>%s</b>", " %s\n"})
 }
 
